@@ -223,6 +223,11 @@ def r2_indices(ctx):
             else:
                 ok = txt.count('n_max') == 2 and 'max(' in txt and ln.eq(ln_other(ln, 'max(') - own('n_max'))
             tag = c.args[0].segs[0][0] if c.args[0].segs else None
+            # the two pads are independent: neither is skipped because the other one was applied
+            foreign = [ck for ck, v in c.pc if not ck.startswith('loop#') and ('n_min' in ck) != (c.name == 'insert_left')]
+            ctx.check('R2.align', f'{site(ag, c.node)} {c.name} independent', not foreign, key(ag, f'{c.name}|independent'),
+                      f'{c.name} is only reached when the other side needed no padding: a map lying strictly inside the common extent is '
+                      'padded on one side only', f'{c.pc}')
             ctx.check('R2.align', f'{site(ag, c.node)} {c.name}', bool(ok) and tag == '0', key(ag, c.name),
                       f'align_grids does not pad {c.name} with OCCUPIED slots for exactly the missing extent',
                       f'pad length {txt}; element {tag}')
@@ -230,7 +235,7 @@ def r2_indices(ctx):
         if nm not in seen:
             ctx.cannot('R2.align', site(ag), f'call to {nm} not found / not analysable in align_grids')
     ctx.need('R2.contiguous', 9)
-    ctx.need('R2.align', 2)
+    ctx.need('R2.align', 4)
 
 
 def ln_other(ln, marker):
